@@ -39,6 +39,12 @@ MODELS = {
                                        'CONSTANTS RWShape <- MCShape3\nRWMutant = "transpose-axis"\n', "violates:RulePreserves"),
     "Rewrites:reduce-axis-mutant": ("Rewrites", 'SPECIFICATION RWSpec\nINVARIANT RulePreserves\nCHECK_DEADLOCK FALSE\n'
                                     'CONSTANTS RWShape <- MCShape2\nRWMutant = "reduce-axis"\n', "violates:RulePreserves"),
+    "Fusion:sound": ("Fusion", 'SPECIFICATION FSpec\nINVARIANT FusionClosed\nINVARIANT ProvenanceKept\nINVARIANT MappingsArePerms\n'
+                     'CHECK_DEADLOCK FALSE\nCONSTANTS FRank = 3\nFDepth = 2\nFMutant = "none"\n', "holds"),
+    "Fusion:forward-perm-mutant": ("Fusion", 'SPECIFICATION FSpec\nINVARIANT FusionClosed\nCHECK_DEADLOCK FALSE\n'
+                                   'CONSTANTS FRank = 3\nFDepth = 2\nFMutant = "forward-perm"\n', "violates:FusionClosed"),
+    "Fusion:forward-perm-2d-indistinguishable": ("Fusion", 'SPECIFICATION FSpec\nINVARIANT FusionClosed\nINVARIANT ProvenanceKept\n'
+                                                 'CHECK_DEADLOCK FALSE\nCONSTANTS FRank = 2\nFDepth = 2\nFMutant = "forward-perm"\n', "holds"),
     "MapBlocksInfo:exact": ("MC_MapBlocksInfo", 'SPECIFICATION MBSpec\nINVARIANT SeenOnGrid\nINVARIANT Exact\nCHECK_DEADLOCK FALSE\n'
                             'CONSTANTS MBLayouts <- MCLayouts\nMBRecs <- MCRecs\n', "holds"),
 }
